@@ -13,20 +13,43 @@ import (
 // (`return ..., nil`). Cleanup calls whose failure cannot change the outcome
 // are exempt by name, one line of reason each.
 var errExempt = map[string]string{
-	"(*os.File).Close":              "closing a read handle / already-synced temp file: failure does not change what was read or published",
-	"os.Remove":                     "best-effort cleanup",
-	"os.RemoveAll":                  "handled by rule R06c where it matters",
-	"(io.Closer).Close":             "closing a reader",
-	"(io.ReadCloser).Close":         "closing a reader",
-	"(*io.PipeWriter).Close":        "pipe close never fails",
-	"(*io.PipeReader).Close":        "pipe close never fails",
-	"(*io.PipeWriter).CloseWithError": "pipe close never fails",
+	"(*os.File).Close":                      "closing a read handle / already-synced temp file: failure does not change what was read or published",
+	"os.Remove":                             "best-effort cleanup",
+	"os.RemoveAll":                          "handled by rule R06c where it matters",
+	"(io.Closer).Close":                     "closing a reader",
+	"(io.ReadCloser).Close":                 "closing a reader",
+	"(*io.PipeWriter).Close":                "pipe close never fails",
+	"(*io.PipeReader).Close":                "pipe close never fails",
+	"(*io.PipeWriter).CloseWithError":       "pipe close never fails",
 	"(*grog/internal/maps.MutexMap).Unlock": "unlock of a held lock",
-	"fmt.Println":                   "console output",
-	"fmt.Printf":                    "console output",
-	"fmt.Print":                     "console output",
-	"fmt.Fprintf":                   "console output",
-	"fmt.Fprintln":                  "console output",
+	"fmt.Println":                           "console output",
+	"fmt.Printf":                            "console output",
+	"fmt.Print":                             "console output",
+	"fmt.Fprintf":                           "console output",
+	"fmt.Fprintln":                          "console output",
+}
+
+// probeExempt: calls whose error is *information* (a probe of local state); on
+// failure the function falls through to doing the work from scratch. Keyed by
+// enclosing function and callee, one line of reason each.
+var probeExempt = map[string]string{
+	"(*output/handlers.FileOutputHandler).Load|grog/internal/hashing.HashFile":                                                  "probe of the local file: any error means 'not present/readable', the output is then reloaded from the CAS (R06b checks the skip condition)",
+	"(*output/handlers.DirectoryOutputHandler).Load|(*grog/internal/output/handlers.DirectoryOutputHandler).getDirectoryHash":   "probe of the local directory: any error means 'reload' (R06b checks the skip condition)",
+	"(*output/handlers.DockerRegistryOutputHandler).Load|(*github.com/docker/docker/client.Client).ImageInspect":                "probe whether the image already exists in the local daemon; on error it is pulled",
+	"(*output/handlers.DockerOutputHandler).loadFromCasLayers|github.com/google/go-containerregistry/pkg/v1/daemon.Image":       "probe whether the image already exists in the local daemon; on error it is loaded from the CAS layers",
+	"(*output/handlers.DockerOutputHandler).loadFromCasLayers|(github.com/google/go-containerregistry/pkg/v1.Image).ConfigName": "part of the same local-daemon probe",
+	"(*output/handlers.DockerOutputHandler).Load|github.com/google/go-containerregistry/pkg/v1/daemon.Image":                    "probe whether the image already exists in the local daemon",
+}
+
+// classifierExempt: functions whose contract is to turn a not-found error into
+// a negative answer (R08d checks that both the not-found and the other-error
+// path exist in each of them).
+func classifierExempt(c *Check, fn *ssa.Function) bool {
+	name := fn.Name()
+	if !engine.InPackage(fn, "caching/backends") {
+		return false
+	}
+	return name == "Exists" || name == "ObjectExists" || name == "Delete"
 }
 
 type droppedErr struct {
@@ -48,6 +71,9 @@ func droppedErrors(c *Check, fn *ssa.Function, extraExempt func(name string) boo
 		return nil
 	}
 	var out []droppedErr
+	if classifierExempt(c, fn) {
+		return nil
+	}
 	for _, s := range engine.SitesIn(fn) {
 		if _, isCall := s.(*ssa.Call); !isCall {
 			continue // defer/go: result unobservable
@@ -63,28 +89,46 @@ func droppedErrors(c *Check, fn *ssa.Function, extraExempt func(name string) boo
 		if extraExempt != nil && extraExempt(name) {
 			continue
 		}
+		if _, ok := probeExempt[c.P.FuncName(fn)+"|"+name]; ok {
+			continue
+		}
 		if strings.HasSuffix(name, ".Close") && len(s.Common().Args) <= 1 {
 			// Close of an arbitrary closer on the success path is judged by the specific rules (R07a)
 			continue
 		}
-		if ok, at := engine.PathExists(fn, s, successReturn, engine.PathQuery{CutEdge: engine.NilErrEdgesOf(s)}); ok {
-			// the error may also be *returned* as a possibly-nil value (return f()) — not a success return by construction.
-			// It may be forwarded into a channel or collected: accept when the error value has a non-test use.
-			if errForwarded(s) {
-				continue
+		fwd := errForwarders(s)
+		isFwd := func(in ssa.Instruction) bool { return fwd[in] }
+		nilEdges := engine.NilErrEdgesOf(s)
+		eofEdges := engine.CutEdgesWhere(func(a engine.Atom) bool {
+			// `err == io.EOF` is end-of-stream, not a failure
+			if a.Op != "eq" || a.Other == nil {
+				return false
 			}
+			for _, side := range []ssa.Value{a.V, a.Other} {
+				if ld, ok := side.(*ssa.UnOp); ok {
+					if g, ok := ld.X.(*ssa.Global); ok && g.Pkg != nil && g.Pkg.Pkg.Path() == "io" && g.Name() == "EOF" {
+						return true
+					}
+				}
+			}
+			return false
+		})
+		cut := func(b *ssa.BasicBlock, i int) bool { return nilEdges(b, i) || eofEdges(b, i) }
+		if ok, at := engine.PathExists(fn, s, successReturn, engine.PathQuery{CutEdge: cut, CutInstr: isFwd}); ok {
 			out = append(out, droppedErr{s, at})
 		}
 	}
 	return out
 }
 
-// errForwarded: the call's error value is sent on a channel, appended to a
-// slice, stored into a captured variable, or passed to another first-party call.
-func errForwarded(s ssa.CallInstruction) bool {
+// errForwarders: the instructions that hand the call's error value on — a
+// channel send, an append to a collected-errors slice, a store into a captured
+// variable or field. A path that passes one of them has not dropped the error.
+func errForwarders(s ssa.CallInstruction) map[ssa.Instruction]bool {
+	out := map[ssa.Instruction]bool{}
 	v := s.Value()
 	if v == nil {
-		return false
+		return out
 	}
 	idx := engine.ErrResultIndex(s.Common().Signature())
 	var errVals []ssa.Value
@@ -98,62 +142,72 @@ func errForwarded(s ssa.CallInstruction) bool {
 		}
 	}
 	seen := map[ssa.Value]bool{}
-	var walk func(v ssa.Value, d int) bool
-	walk = func(v ssa.Value, d int) bool {
-		if seen[v] || d > 6 {
-			return false
+	var walk func(v ssa.Value, d int)
+	walk = func(v ssa.Value, d int) {
+		if seen[v] || d > 8 {
+			return
 		}
 		seen[v] = true
 		for _, r := range *v.Referrers() {
 			switch x := r.(type) {
 			case *ssa.Send:
 				if x.X == v {
-					return true
+					out[x] = true
 				}
 			case *ssa.Select:
-				return true
-			case *ssa.Return:
-				return true
+				for _, st := range x.States {
+					if st.Send == v {
+						out[x] = true
+					}
+				}
 			case *ssa.Phi:
-				if walk(x, d+1) {
-					return true
-				}
+				walk(x, d+1)
 			case *ssa.MakeInterface:
-				if walk(x, d+1) {
-					return true
-				}
+				walk(x, d+1)
 			case *ssa.ChangeInterface:
-				if walk(x, d+1) {
-					return true
-				}
-			case *ssa.Store:
-				if x.Val == v {
-					if _, isAlloc := x.Addr.(*ssa.Alloc); !isAlloc {
-						return true // stored into a field/captured variable/element
-					}
-					// local cell: continue with its loads
-					for _, lr := range *x.Addr.Referrers() {
-						if ld, ok := lr.(*ssa.UnOp); ok {
-							if walk(ld, d+1) {
-								return true
-							}
-						}
-					}
-				}
+				walk(x, d+1)
 			case *ssa.Call:
 				if b, ok := x.Call.Value.(*ssa.Builtin); ok && b.Name() == "append" {
-					return true
+					out[x] = true
+				}
+				// wrapping (fmt.Errorf("%w")) keeps the error alive: follow the wrapper's result
+				if n := engine.CalleeName(x); n == "fmt.Errorf" || n == "errors.Join" {
+					walk(x, d+1)
+				}
+			case *ssa.Slice:
+				walk(x, d+1)
+			case *ssa.Store:
+				if x.Val != v {
+					continue
+				}
+				switch a := x.Addr.(type) {
+				case *ssa.Alloc:
+					for _, lr := range *a.Referrers() {
+						if ld, ok := lr.(*ssa.UnOp); ok {
+							walk(ld, d+1)
+						}
+					}
+				case *ssa.IndexAddr:
+					// varargs array of a wrapping call: follow the array to the call
+					if al, ok := a.X.(*ssa.Alloc); ok {
+						for _, ar := range *al.Referrers() {
+							if sl, ok := ar.(*ssa.Slice); ok {
+								walk(sl, d+1)
+							}
+						}
+					} else {
+						out[x] = true
+					}
+				default:
+					out[x] = true // field, captured variable, global
 				}
 			}
 		}
-		return false
 	}
 	for _, e := range errVals {
-		if walk(e, 0) {
-			return true
-		}
+		walk(e, 0)
 	}
-	return false
+	return out
 }
 
 // requireNoDroppedErrors emits one obligation per function.
